@@ -268,7 +268,9 @@ class StringLiteral(BaseType):
             limit = options.get(self.TypeStyle.max_literals)
             if limit is None or len(self.literals) < limit:
                 parts = ', '.join(
-                    json.dumps(s)
+                    # ensure_ascii would write astral characters as surrogate pairs, which Python reads back
+                    # as two lone surrogates: Literal["\ud83d\ude00"] != "\U0001f600"
+                    json.dumps(s, ensure_ascii=False)
                     for s in sorted(self.literals)
                 )
                 return [(Literal.__module__, 'Literal')], f"Literal[{parts}]"
